@@ -91,6 +91,7 @@ void mc_note(const char *fmt, ...) __attribute__((format(printf, 1, 2)));  /* ex
 long mc_live_bytes(void);               /* bytes currently allocated (ASan statistics or mallinfo2) */
 size_t mc_block_size(const void *p);    /* usable/allocated size of a heap block, 0 if unknown */
 int  mc_have_asan(void);
+int  mc_have_msan(void);                             /* MemorySanitizer build: reading bytes nobody wrote is reported, so probes stay off slack the harness did not fill */
 void mc_poll_sanitizers(void);          /* scan stderr growth for UBSan reports (called by the engine after each case) */
 void mc_allow_exit(int on);
 void mc_child_reset(void);              /* in a forked cell: default signal actions, no watchdog, exit allowed — the parent judges the wait status */             /* harnesses that fork children which must really exit */
